@@ -8,5 +8,6 @@ CONSTANTS
   MaxChunks = 4
 VIEW View
 CONSTRAINT Bound
-INVARIANTS Inv StepOK EmitState
+INVARIANTS Inv StepOK AbsInv EmitState
+PROPERTIES AbsRefines
 CHECK_DEADLOCK FALSE
